@@ -25,7 +25,7 @@ theorem decArrayCount_ok (S : Schema) (T : String → Bytes → Bytes) (r : Rec)
   | zero =>
     intro view prev acc l h
     simp only [decArrayCount, Except.ok.injEq] at h
-    refine ⟨[], by simp [h], rfl, fun _ h => by cases h, ?_⟩
+    refine ⟨[], by simp [h], rfl, (fun _ h => by cases h), ?_⟩
     intro k _
     refine ⟨[], rfl, ?_⟩
     cases prev <;> simp [chainOk, strictlyAscending]
@@ -131,17 +131,20 @@ theorem decArrayAligned_ok (r : Rec) (elem : String) (align : Nat) (padLast : Bo
     · simp only [Except.ok.injEq] at h; subst h; intro e he; cases he
     · obtain ⟨e, hd, h⟩ := bind_eq_ok.mp h
       obtain ⟨s, hs, h⟩ := bind_eq_ok.mp h
+      have aux : ∀ X, (decArrayAligned r elem align padLast n X >>= fun rest => (.ok (e :: rest) : R (List Val))) = .ok l →
+          ∀ x ∈ l, FromDec r elem x := by
+        intro X hX
+        obtain ⟨rest, hr, hX⟩ := bind_eq_ok.mp hX
+        simp only [Except.ok.injEq] at hX
+        subst hX
+        intro x hx
+        rcases List.mem_cons.mp hx with rfl | hx
+        · exact ⟨view, hd⟩
+        · exact ih _ _ hr x hx
       split at h
       · cases h
-      · split at h
-        · cases h
-        · obtain ⟨rest, hr, h⟩ := bind_eq_ok.mp h
-          simp only [Except.ok.injEq] at h
-          subst h
-          intro x hx
-          rcases List.mem_cons.mp hx with rfl | hx
-          · exact ⟨view, hd⟩
-          · exact ih _ _ hr x hx
+      · simp only [] at h
+        split at h <;> (split at h <;> first | cases h | exact aux _ h)
 
 /-! ### writing a list of encodable elements -/
 
@@ -162,7 +165,8 @@ theorem encArrayAligned_ok (r : Rec) (elem : String) (align : Nat) (padLast : Bo
   | cons e l ih =>
     obtain ⟨⟨be, hbe⟩, ⟨s, hs⟩⟩ := h e (by simp)
     obtain ⟨bl, hbl⟩ := ih (fun x hx => h x (by simp [hx]))
-    exact ⟨_, by simp [encArrayAligned, hbe, hs, hbl, bind, Except.bind]⟩
+    simp only [encArrayAligned, hbe, hs, hbl, bind, Except.bind]
+    exact ⟨_, rfl⟩
 
 theorem elemSizes_ok (r : Rec) (elem : String) (l : List Val) (h : ∀ e ∈ l, ∃ s, r.size elem e = .ok s) :
     ∃ ss, elemSizes r elem l = .ok ss := by
